@@ -478,6 +478,724 @@ fn case_weights_read(r: &mut Rng) -> (String, String, String, bool, &'static str
     (coq, json, key, buf.len() >= 16, name)
 }
 
+// ------------------------------------------------------------------ MEDIT meshes
+
+use mesh_io::{ElementType, Mesh};
+
+const ETYPES: [ElementType; 7] = [
+    ElementType::Vertex,
+    ElementType::Edge,
+    ElementType::Triangle,
+    ElementType::Quadrangle,
+    ElementType::Quadrilateral,
+    ElementType::Tetrahedron,
+    ElementType::Hexahedron,
+];
+
+/// a mesh as plain data (Mesh has no PartialEq / Clone)
+#[derive(Clone, PartialEq, Debug)]
+struct MeshData {
+    dim: usize,
+    coords: Vec<u64>, // bit patterns
+    nrefs: Vec<isize>,
+    topo: Vec<(ElementType, Vec<usize>, Vec<isize>)>,
+}
+impl MeshData {
+    fn of(m: &Mesh) -> MeshData {
+        MeshData {
+            dim: m.dimension(),
+            coords: m.coordinates().iter().map(|x| x.to_bits()).collect(),
+            nrefs: m.node_refs().to_vec(),
+            topo: m.topology().to_vec(),
+        }
+    }
+    fn build(&self) -> Mesh {
+        Mesh::from_raw_parts(
+            self.dim,
+            self.coords.iter().map(|b| f64::from_bits(*b)).collect(),
+            self.nrefs.clone(),
+            self.topo.clone(),
+        )
+    }
+    fn coq(&self) -> String {
+        let blocks: Vec<String> = self
+            .topo
+            .iter()
+            .map(|(t, ns, rs)| {
+                format!(
+                    "mkblock {:?} {} {}",
+                    t,
+                    coq_nlist_hex(ns.iter().map(|x| *x as u64)),
+                    coq_zlist(rs.iter().map(|x| *x as i128))
+                )
+            })
+            .collect();
+        format!(
+            "(mkmesh {} {} {} [{}])",
+            self.dim,
+            coq_nlist_hex(self.coords.iter().cloned()),
+            coq_zlist(self.nrefs.iter().map(|x| *x as i128)),
+            blocks.join("; ")
+        )
+    }
+    fn json(&self) -> String {
+        let blocks: Vec<String> = self
+            .topo
+            .iter()
+            .map(|(t, ns, rs)| {
+                format!(
+                    "{{\"type\":\"{:?}\",\"nodes\":{},\"refs\":{}}}",
+                    t,
+                    json_usizes(ns),
+                    json_i64s(&rs.iter().map(|x| *x as i64).collect::<Vec<_>>())
+                )
+            })
+            .collect();
+        let cs: Vec<String> = self.coords.iter().map(|x| format!("\"{:016x}\"", x)).collect();
+        format!(
+            "{{\"dimension\":{},\"coordinate_bits\":[{}],\"node_refs\":{},\"topology\":[{}]}}",
+            self.dim,
+            cs.join(","),
+            json_i64s(&self.nrefs.iter().map(|x| *x as i64).collect::<Vec<_>>()),
+            blocks.join(",")
+        )
+    }
+}
+
+/// N literals: hexadecimal above 2^32 (coqc reads them faster)
+fn coq_nlist_hex<I: IntoIterator<Item = u64>>(xs: I) -> String {
+    let v: Vec<String> = xs
+        .into_iter()
+        .map(|x| if x >> 32 == 0 { x.to_string() } else { format!("0x{:x}", x) })
+        .collect();
+    format!("[{}]%N", v.join(";"))
+}
+
+fn medit_err_code(msg: &str) -> u32 {
+    if msg.contains("expected token") {
+        3
+    } else if msg.contains("when parsing integer") {
+        4
+    } else if msg.contains("when parsing float") {
+        5
+    } else if msg.contains("io error") {
+        2
+    } else {
+        99
+    }
+}
+
+/// which reader: 0 = medit::parse_binary, 1 = medit::parse_ascii, 2 = Mesh::from_reader
+fn read_mesh(which: u32, bytes: Vec<u8>) -> Rd {
+    let g = guarded(0, T, move || -> Result<MeshData, (u32, String)> {
+        match which {
+            0 => mesh_io::medit::parse_binary(&bytes[..])
+                .map(|m| MeshData::of(&m))
+                .map_err(|e| (medit_err_code(&e.to_string()), e.to_string())),
+            1 => mesh_io::medit::parse_ascii(&bytes[..])
+                .map(|m| MeshData::of(&m))
+                .map_err(|e| (medit_err_code(&e.to_string()), e.to_string())),
+            _ => Mesh::from_reader(&bytes[..]).map(|m| MeshData::of(&m)).map_err(|e| match e {
+                mesh_io::Error::Io(e) => (2, e.to_string()),
+                mesh_io::Error::Medit(e) => (medit_err_code(&e.to_string()), e.to_string()),
+                other => (6, other.to_string()), // UnknownFormat, or the VTK branch
+            }),
+        }
+    });
+    match g {
+        Guarded::Done(Ok(m)) => Rd::Ok(m.coq(), m.json()),
+        Guarded::Done(Err((c, m))) => Rd::Err(c, m),
+        Guarded::Panic(m) => Rd::Panic(m),
+        Guarded::Hang => Rd::Hang,
+    }
+}
+
+fn interesting_ref(r: &mut Rng) -> isize {
+    match r.below(8) {
+        0 => 0,
+        1 => r.range(-3, 3) as isize,
+        2 => isize::MIN,
+        3 => isize::MAX,
+        4 => -1,
+        5 => r.next() as isize,
+        _ => r.range(0, 50) as isize,
+    }
+}
+
+/// coordinates: (family name, bits)
+fn gen_coord(r: &mut Rng, fam: u64) -> u64 {
+    match fam {
+        0 => (r.range(-8, 8) as f64).to_bits(),                      // lattice
+        1 => ((r.range(-100000, 100000) as f64) / 1024.0).to_bits(), // dyadic
+        2 => ((r.range(-100000, 100000) as f64) / 1000.0).to_bits(), // decimal fractions
+        3 => loop {
+            // any finite value
+            let b = r.next();
+            if f64::from_bits(b).is_finite() {
+                break b;
+            }
+        },
+        4 => *r.pick(&[
+            0u64,
+            1 << 63,
+            1,
+            0x000f_ffff_ffff_ffff,
+            0x0010_0000_0000_0000,
+            0x7fef_ffff_ffff_ffff,
+            0xffef_ffff_ffff_ffff,
+            0x7ff0_0000_0000_0000,
+            0xfff0_0000_0000_0000,
+            0x3ff0_0000_0000_0001,
+            0x4340_0000_0000_0000,
+            0x4415_af1d_78b5_8c40,
+        ]),
+        _ => interesting_f64_bits(r), // includes NaNs with payloads
+    }
+}
+
+fn gen_mesh(r: &mut Rng, big: bool) -> (&'static str, MeshData) {
+    let dim = match r.below(12) {
+        0 => 1,
+        1 => 4,
+        x if x < 7 => 2,
+        _ => 3,
+    };
+    let nn = match r.below(8) {
+        0 => 0,
+        1 => 1,
+        _ => r.range(2, if big { 20 } else { 9 }) as usize,
+    };
+    let cfam = r.below(6);
+    let coords: Vec<u64> = (0..nn * dim).map(|_| gen_coord(r, cfam)).collect();
+    let nrefs: Vec<isize> = (0..nn).map(|_| interesting_ref(r)).collect();
+    let nb = match r.below(6) {
+        0 => 0,
+        1 => 1,
+        _ => r.range(1, 5) as usize,
+    };
+    // element types: mostly the property's list; sometimes Vertex / Quadrangle
+    let exotic = r.chance(1, 4);
+    let wild_nodes = r.chance(1, 8);
+    let mut topo = Vec::new();
+    for _ in 0..nb {
+        let t = if exotic && r.chance(1, 2) {
+            *r.pick(&[ElementType::Vertex, ElementType::Quadrangle])
+        } else {
+            *r.pick(&[
+                ElementType::Edge,
+                ElementType::Triangle,
+                ElementType::Quadrilateral,
+                ElementType::Tetrahedron,
+                ElementType::Hexahedron,
+            ])
+        };
+        let ne = match r.below(6) {
+            0 => 0,
+            1 => 1,
+            _ => r.range(1, if big { 8 } else { 4 }) as usize,
+        };
+        let nodes: Vec<usize> = (0..ne * t.node_count())
+            .map(|_| {
+                if wild_nodes {
+                    match r.below(4) {
+                        0 => (i64::MAX - 1) as usize, // largest node number the binary writer can increment
+                        1 => (r.next() >> 1).min((i64::MAX - 1) as u64) as usize,
+                        _ => r.below(1 << 33) as usize,
+                    }
+                } else if nn > 0 {
+                    r.below(nn as u64) as usize
+                } else {
+                    r.below(3) as usize
+                }
+            })
+            .collect();
+        let refs: Vec<isize> = (0..ne).map(|_| interesting_ref(r)).collect();
+        topo.push((t, nodes, refs));
+    }
+    let name = match (exotic && topo.iter().any(|b| b.0 == ElementType::Vertex || b.0 == ElementType::Quadrangle), cfam) {
+        (true, _) => "mesh_vertex_or_quadrangle_blocks",
+        (_, 0) => "mesh_lattice",
+        (_, 1) => "mesh_dyadic",
+        (_, 2) => "mesh_decimal",
+        (_, 3) => "mesh_any_finite",
+        (_, 4) => "mesh_extreme_coords",
+        _ => "mesh_nonfinite_coords",
+    };
+    (name, MeshData { dim, coords, nrefs, topo })
+}
+
+fn case_medit_bin(r: &mut Rng, big: bool) -> (String, String, String, bool, &'static str) {
+    let (name, md) = gen_mesh(r, big);
+    let md2 = md.clone();
+    let w = guarded(0, T, move || {
+        let mesh = md2.build();
+        let mut buf: Vec<u8> = Vec::new();
+        mesh.serialize_medit_binary(&mut buf).map(|()| buf)
+    });
+    let wbytes = match w {
+        Guarded::Done(Ok(b)) => Some(b),
+        _ => None,
+    };
+    let rb = match &wbytes {
+        Some(b) => read_mesh(2, b.clone()),
+        None => Rd::Panic("write failed".into()),
+    };
+    let coq = format!("KMeditBin {} {} {}", md.coq(), coq_opt_bytes(&wbytes), rb.coq());
+    let json = format!(
+        "{{\"kind\":\"medit_binary\",\"mesh\":{},\"written\":{},\"read_back\":{}}}",
+        md.json(),
+        json_opt_hex(&wbytes),
+        rb.json()
+    );
+    let key = format!("MB{}", md.json());
+    let nontrivial = !md.nrefs.is_empty() && !md.topo.is_empty();
+    (coq, json, key, nontrivial, name)
+}
+
+/// every distinct whitespace-separated word of the text that Rust parses as an f64, with the bits
+fn float_words(bytes: &[u8]) -> Vec<(Vec<u8>, u64)> {
+    let text = String::from_utf8_lossy(bytes);
+    let mut seen = std::collections::BTreeSet::new();
+    let mut out = Vec::new();
+    for w in text.split_whitespace() {
+        if let Ok(x) = w.parse::<f64>() {
+            if seen.insert(w.to_string()) {
+                out.push((w.as_bytes().to_vec(), x.to_bits()));
+            }
+        }
+    }
+    out
+}
+fn coq_rtab(t: &[(Vec<u8>, u64)]) -> String {
+    let v: Vec<String> = t
+        .iter()
+        .map(|(w, b)| format!("({}, {})", coq_bytes(w), if b >> 32 == 0 { b.to_string() } else { format!("0x{:x}", b) }))
+        .collect();
+    format!("[{}]%N", v.join(";"))
+}
+
+fn case_medit_ascii(r: &mut Rng, big: bool) -> (String, String, String, bool, &'static str) {
+    let (name, md) = gen_mesh(r, big);
+    let md2 = md.clone();
+    let w = guarded(0, T, move || {
+        let mesh = md2.build();
+        mesh.display_medit_ascii().to_string().into_bytes()
+    });
+    let wbytes = match w {
+        Guarded::Done(b) => Some(b),
+        _ => None,
+    };
+    // print table: Display of every distinct coordinate
+    let mut seen = std::collections::BTreeSet::new();
+    let mut pt = Vec::new();
+    for b in &md.coords {
+        if seen.insert(*b) {
+            pt.push(format!(
+                "({}, {})",
+                if b >> 32 == 0 { b.to_string() } else { format!("0x{:x}", b) },
+                coq_bytes(format!("{}", f64::from_bits(*b)).as_bytes())
+            ));
+        }
+    }
+    let rt = match &wbytes {
+        Some(b) => float_words(b),
+        None => vec![],
+    };
+    let rb = match &wbytes {
+        Some(b) => read_mesh(2, b.clone()),
+        None => Rd::Panic("write failed".into()),
+    };
+    let coq = format!(
+        "KMeditAscii {} [{}]%N {} {} {}",
+        md.coq(),
+        pt.join(";"),
+        coq_rtab(&rt),
+        coq_opt_bytes(&wbytes),
+        rb.coq()
+    );
+    let json = format!(
+        "{{\"kind\":\"medit_ascii\",\"mesh\":{},\"written\":{},\"read_back\":{}}}",
+        md.json(),
+        match &wbytes {
+            Some(b) => json_str(&String::from_utf8_lossy(b)),
+            None => "null".into(),
+        },
+        rb.json()
+    );
+    let key = format!("MA{}", md.json());
+    let nontrivial = !md.nrefs.is_empty() && !md.topo.is_empty();
+    (coq, json, key, nontrivial, name)
+}
+
+
+// ---- read-only streams: foreign / malformed MEDIT files, sniffing
+
+/// a MEDIT binary file of any version / byte order, written independently of mesh-io
+struct BinEnc {
+    le: bool,
+    version: i32,
+    out: Vec<u8>,
+}
+impl BinEnc {
+    fn key(&mut self, x: i32) {
+        let b = if self.le { x.to_le_bytes() } else { x.to_be_bytes() };
+        self.out.extend_from_slice(&b);
+    }
+    fn i64_(&mut self, x: i64) {
+        let b = if self.le { x.to_le_bytes() } else { x.to_be_bytes() };
+        self.out.extend_from_slice(&b);
+    }
+    fn int(&mut self, x: i64) {
+        if self.version >= 4 {
+            self.i64_(x)
+        } else {
+            self.key(x as i32)
+        }
+    }
+    fn pos(&mut self, x: i64) {
+        if self.version >= 3 {
+            self.i64_(x)
+        } else {
+            self.key(x as i32)
+        }
+    }
+    fn float(&mut self, bits: u64) {
+        if self.version >= 2 {
+            let b = if self.le { bits.to_le_bytes() } else { bits.to_be_bytes() };
+            self.out.extend_from_slice(&b);
+        } else {
+            // version 1 stores f32: take the low 32 bits as the f32 pattern
+            let v = bits as u32;
+            let b = if self.le { v.to_le_bytes() } else { v.to_be_bytes() };
+            self.out.extend_from_slice(&b);
+        }
+    }
+}
+
+fn interesting_f32_bits(r: &mut Rng) -> u32 {
+    match r.below(12) {
+        0 => 0,
+        1 => 1 << 31,
+        2 => 0x7f80_0000,
+        3 => 0xff80_0000,
+        4 => 0x7fc0_0000,
+        5 => 0x7f80_0000 | (1 + r.below((1 << 22) - 1)) as u32, // signalling NaN
+        6 => 0xffc0_0000 | r.below(1 << 22) as u32,
+        7 => 1 + r.below(1 << 22) as u32, // subnormal
+        8 => 0x007f_ffff,
+        9 => 0x7f7f_ffff,
+        10 => (r.range(-1000, 1000) as f32 / 8.0).to_bits(),
+        _ => r.next() as u32,
+    }
+}
+
+fn case_medit_bin_read(r: &mut Rng) -> (String, String, String, bool, &'static str) {
+    let version = r.range(1, 4) as i32;
+    let le = r.chance(2, 3);
+    let mut e = BinEnc { le, version, out: Vec::new() };
+    let fam = r.below(14);
+    // header
+    if le {
+        e.out.extend_from_slice(&[1, 0, 0, 0]);
+    } else {
+        e.out.extend_from_slice(&[0, 0, 0, 1]);
+    }
+    e.key(version);
+    e.key(3);
+    e.pos(r.range(0, 1000));
+    let dim = if fam == 9 { *r.pick(&[0i32, -1, 5]) } else { r.range(1, 3) as i32 };
+    e.key(dim);
+    let nn = r.range(0, 5);
+    let udim = if (0..=5).contains(&dim) { dim as usize } else { 0 };
+    let sections = r.range(0, 4);
+    let mut name: &'static str = "medit_binrd_valid";
+    for sct in 0..=sections {
+        if sct == 0 || r.chance(1, 6) {
+            e.key(4);
+            e.pos(r.next() as i64);
+            let cnt = if fam == 10 { *r.pick(&[-1i64, -5, i32::MIN as i64]) } else { nn };
+            e.int(cnt);
+            for _ in 0..nn {
+                for _ in 0..udim {
+                    let b = if version == 1 { interesting_f32_bits(r) as u64 } else { interesting_f64_bits(r) };
+                    e.float(b);
+                }
+                e.int(interesting_ref(r) as i64);
+            }
+        } else {
+            let code = if fam == 11 { *r.pick(&[0i32, 10, 53, -1, 3]) } else { r.range(5, 9) as i32 };
+            e.key(code);
+            e.pos(r.next() as i64);
+            let npe = match code { 5 => 2, 6 => 3, 7 | 8 => 4, 9 => 8, _ => 1 };
+            let ne = r.range(0, 3);
+            e.int(ne);
+            for _ in 0..ne {
+                for _ in 0..npe {
+                    let v = if fam == 12 && r.chance(1, 3) { *r.pick(&[0i64, -1, -7]) } else { r.range(1, 9) };
+                    e.int(v);
+                }
+                e.int(interesting_ref(r) as i64);
+            }
+        }
+    }
+    if fam != 8 {
+        e.key(54); // End (family 8: end of file instead)
+    }
+    let mut buf = e.out;
+    match fam {
+        0 | 1 => {
+            let k = r.below(buf.len() as u64 + 1) as usize;
+            buf.truncate(k);
+            name = "medit_binrd_truncated";
+        }
+        2 => {
+            buf[r.below(4) as usize] ^= 1 << r.below(8);
+            name = "medit_binrd_bad_magic";
+        }
+        3 => {
+            let v = *r.pick(&[0i32, 5, -1, 256]);
+            let b = if le { v.to_le_bytes() } else { v.to_be_bytes() };
+            buf[4..8].copy_from_slice(&b);
+            name = "medit_binrd_bad_version";
+        }
+        4 => {
+            let v = *r.pick(&[4i32, 0, 54]);
+            let b = if le { v.to_le_bytes() } else { v.to_be_bytes() };
+            buf[8..12].copy_from_slice(&b);
+            name = "medit_binrd_bad_dimension_code";
+        }
+        5 => {
+            for _ in 0..r.range(1, 9) {
+                buf.push(r.next() as u8);
+            }
+            name = "medit_binrd_trailing";
+        }
+        8 => name = "medit_binrd_eof_instead_of_end",
+        9 => name = "medit_binrd_odd_dimension",
+        10 => name = "medit_binrd_negative_count",
+        11 => name = "medit_binrd_unknown_code",
+        12 => name = "medit_binrd_node_zero_or_negative",
+        _ => {}
+    }
+    let which = if r.chance(1, 4) { 2 } else { 0 };
+    let rd = read_mesh(which, buf.clone());
+    let coq = format!("KMeditRead {} []%N {} {}", which, coq_bytes(&buf), rd.coq());
+    let json = format!(
+        "{{\"kind\":\"medit_binary_read\",\"reader\":{},\"version\":{},\"little_endian\":{},\"bytes\":\"{}\",\"read\":{}}}",
+        which, version, le, hex(&buf), rd.json()
+    );
+    let key = format!("MBR{}{}", which, hex(&buf));
+    (coq, json, key, buf.len() > 24, name)
+}
+
+fn case_medit_ascii_read(r: &mut Rng) -> (String, String, String, bool, &'static str) {
+    // start from a file the implementation wrote, without non-finite coordinates
+    let md = loop {
+        let (n, md) = gen_mesh(r, false);
+        if n != "mesh_nonfinite_coords" {
+            break md;
+        }
+    };
+    let text = md.build().display_medit_ascii().to_string();
+    let fam = r.below(16);
+    let mut name: &'static str = "medit_ascrd_valid";
+    let mut buf: Vec<u8> = text.clone().into_bytes();
+    match fam {
+        0 => {
+            buf = text.to_uppercase().into_bytes();
+            name = "medit_ascrd_uppercase";
+        }
+        1 => {
+            buf = text.replace('\n', "\r\n").replace(' ', " \t ").into_bytes();
+            name = "medit_ascrd_crlf_tabs";
+        }
+        2 => {
+            buf = format!(" \n\t {}", text).into_bytes();
+            name = "medit_ascrd_leading_space";
+        }
+        3 => {
+            let k = r.below(buf.len() as u64 + 1) as usize;
+            buf.truncate(k);
+            name = "medit_ascrd_truncated";
+        }
+        4 => {
+            // junk between an element keyword and its count, on the same line / the next line
+            let junk = if r.chance(1, 2) { " junk 3d" } else { "\njunk" };
+            buf = text
+                .replace("Triangles\n", &format!("Triangles{}\n", junk))
+                .replace("Edges\n", &format!("Edges{}\n", junk))
+                .into_bytes();
+            name = "medit_ascrd_junk_after_keyword";
+        }
+        5 => {
+            buf = text
+                .replace("\nEnd", "\nCorners\n2\n 1\n 2\n\nRidges 0\nRequiredVertices\n1\n 1\n\nEnd")
+                .into_bytes();
+            name = "medit_ascrd_skipped_sections";
+        }
+        6 => {
+            buf = text.replace("\nEnd", "\nNormals\n0\nEnd").into_bytes();
+            name = "medit_ascrd_unknown_section";
+        }
+        7 => {
+            // drop the last word (the reference) of some lines
+            let lines: Vec<String> = text
+                .lines()
+                .map(|l| {
+                    if l.starts_with(' ') && r.chance(1, 3) {
+                        let mut w: Vec<&str> = l.split(' ').collect();
+                        w.pop();
+                        w.join(" ")
+                    } else {
+                        l.to_string()
+                    }
+                })
+                .collect();
+            buf = lines.join("\n").into_bytes();
+            name = "medit_ascrd_missing_words";
+        }
+        8 => {
+            let lines: Vec<String> = text
+                .lines()
+                .map(|l| if l.starts_with(' ') && r.chance(1, 4) { format!("{} 7", l) } else { l.to_string() })
+                .collect();
+            buf = lines.join("\n").into_bytes();
+            name = "medit_ascrd_extra_words";
+        }
+        9 => {
+            buf = text.replace("\nEnd", "\n").into_bytes();
+            name = "medit_ascrd_missing_end";
+        }
+        10 => {
+            buf = text.replace(" 1 ", " 0 ").replace(" 2 ", " +2 ").into_bytes();
+            name = "medit_ascrd_zero_or_plus_numbers";
+        }
+        11 => {
+            let i = r.below(buf.len() as u64) as usize;
+            buf[i] = *r.pick(&[0xffu8, 0xc3, 0x80, 0xe2]);
+            name = "medit_ascrd_invalid_utf8";
+        }
+        12 => {
+            buf = text.replacen(" ", "\u{a0}", 3).replacen("\n ", "\n\u{2003}", 2).into_bytes();
+            name = "medit_ascrd_unicode_space";
+        }
+        13 => {
+            buf = text
+                .replace("\t", "\t-")
+                .replace("Dimension ", if r.chance(1, 2) { "Dimension 0" } else { "Dimensions " })
+                .into_bytes();
+            name = "medit_ascrd_bad_counts";
+        }
+        14 => {
+            let i = r.below(buf.len() as u64) as usize;
+            buf[i] = *r.pick(&[b' ', b'x', b'\n', b'-', b'.', b'e', b'9']);
+            name = "medit_ascrd_one_byte_changed";
+        }
+        _ => {}
+    }
+    let which = if r.chance(1, 3) { 2 } else { 1 };
+    let rt = float_words(&buf);
+    let rd = read_mesh(which, buf.clone());
+    let coq = format!("KMeditRead {} {} {} {}", which, coq_rtab(&rt), coq_bytes(&buf), rd.coq());
+    let json = format!(
+        "{{\"kind\":\"medit_ascii_read\",\"reader\":{},\"text\":{},\"bytes\":\"{}\",\"read\":{}}}",
+        which,
+        json_str(&String::from_utf8_lossy(&buf)),
+        hex(&buf),
+        rd.json()
+    );
+    let key = format!("MAR{}{}", which, hex(&buf));
+    (coq, json, key, buf.len() > 40, name)
+}
+
+fn case_sniff(r: &mut Rng) -> (String, String, String, bool, &'static str) {
+    let hdr = "MeshVersionFormatted";
+    let fam = r.below(10);
+    let mut buf: Vec<u8> = Vec::new();
+    let name: &'static str = match fam {
+        0 => {
+            buf.extend_from_slice(if r.chance(1, 2) { &[1, 0, 0, 0] } else { &[0, 0, 0, 1] });
+            for _ in 0..r.below(12) {
+                buf.push(r.next() as u8);
+            }
+            "sniff_binary_magic"
+        }
+        1 => {
+            let k = r.below(6) as usize;
+            buf = (0..k).map(|_| *r.pick(&[0u8, 1, 0, 0, 77])).collect();
+            "sniff_short"
+        }
+        2 => {
+            // header in mixed case after white space (ASCII and Unicode)
+            for _ in 0..r.below(4) {
+                buf.extend_from_slice(r.pick(&[" ", "\n", "\t", "\r", "\u{a0}", "\u{2003}", "\u{3000}", "\u{85}", "\u{b}"]).as_bytes());
+            }
+            for c in hdr.chars() {
+                let c = if r.chance(1, 2) { c.to_ascii_uppercase() } else { c.to_ascii_lowercase() };
+                buf.push(c as u8);
+            }
+            for _ in 0..r.below(10) {
+                buf.push(*r.pick(&[b' ', b'2', b'\n', b'x']));
+            }
+            "sniff_ascii_header"
+        }
+        3 => {
+            let k = r.range(0, 20) as usize;
+            buf = hdr.as_bytes()[..k].to_vec();
+            if r.chance(1, 2) {
+                buf.insert(0, b' ');
+            }
+            "sniff_header_prefix"
+        }
+        4 => {
+            // 19 header bytes then a multi-byte character: `header[..20]` is not a char boundary
+            buf = hdr.as_bytes()[..19].to_vec();
+            buf.extend_from_slice(r.pick(&["é", "€", "\u{1F600}"]).as_bytes());
+            buf.extend_from_slice(b" 2");
+            "sniff_header_char_boundary"
+        }
+        5 => {
+            buf = hdr.as_bytes().to_vec();
+            buf.extend_from_slice(b" 2\n");
+            buf.push(*r.pick(&[0xffu8, 0x80, 0xc3]));
+            "sniff_invalid_utf8_later"
+        }
+        6 => {
+            buf = hdr.as_bytes().to_vec();
+            let i = r.below(20) as usize;
+            buf[i] = *r.pick(&[b'x', b' ', 0xc3, b'0']);
+            "sniff_header_one_byte_off"
+        }
+        7 => {
+            buf = hdr.as_bytes().to_vec();
+            buf.extend_from_slice("é 2".as_bytes());
+            "sniff_header_then_multibyte"
+        }
+        _ => {
+            let k = r.below(30) as usize;
+            buf = (0..k).map(|_| if r.chance(3, 4) { r.below(128) as u8 } else { r.next() as u8 }).collect();
+            "sniff_random"
+        }
+    };
+    let bin = mesh_io::medit::test_format_binary(&buf);
+    let b2 = buf.clone();
+    let asc = match guarded(0, T, move || mesh_io::medit::test_format_ascii(&b2)) {
+        Guarded::Done(b) => format!("(IROk {})", coq_bool(b)),
+        Guarded::Panic(_) => "IRPanic".to_string(),
+        Guarded::Hang => "IRHang".to_string(),
+    };
+    let coq = format!("KSniff {} {} {}", coq_bytes(&buf), coq_bool(bin), asc);
+    let json = format!(
+        "{{\"kind\":\"sniff\",\"bytes\":\"{}\",\"binary\":{},\"ascii\":{}}}",
+        hex(&buf),
+        bin,
+        json_str(&asc)
+    );
+    let key = format!("S{}", hex(&buf));
+    (coq, json, key, buf.len() >= 4, name)
+}
+
+
 // ------------------------------------------------------------------ main
 
 fn main() {
@@ -487,7 +1205,7 @@ fn main() {
     let mut rng = Rng::new(a.seed);
     let mut w = CaseWriter::new(
         &a.out,
-        "From Coq Require Import Uint63.\nFrom Coupe Require Import Lib.Prelude Lib.Report Model.Formats Run.RunC19.",
+        "From Coq Require Import Uint63.\nFrom Coupe Require Import Lib.Prelude Lib.Report Model.Formats Model.MeditTypes Run.RunC19.",
         "case19",
         "run19",
         100,
@@ -501,11 +1219,16 @@ fn main() {
                 continue;
             }
         }
-        let (coq, json, key, nontrivial, fam) = match r.below(10) {
-            0 | 1 => case_partition(&mut r, big),
-            2 => case_partition_read(&mut r),
-            3 | 4 | 5 | 6 => case_weights(&mut r, big),
-            _ => case_weights_read(&mut r),
+        let (coq, json, key, nontrivial, fam) = match r.below(32) {
+            0 | 1 | 2 => case_partition(&mut r, big),
+            3 => case_partition_read(&mut r),
+            4..=9 => case_weights(&mut r, big),
+            10 | 11 => case_weights_read(&mut r),
+            12..=17 => case_medit_bin(&mut r, big),
+            18..=20 => case_medit_bin_read(&mut r),
+            21..=26 => case_medit_ascii(&mut r, big),
+            27..=29 => case_medit_ascii_read(&mut r),
+            _ => case_sniff(&mut r),
         };
         if coq.contains("IRPanic") {
             panics += 1;
